@@ -53,6 +53,15 @@ func (e exprWrap) Value(ctx *hcl.EvalContext) (cty.Value, hcl.Diagnostics) {
 		return e.prepareValue(e.Expression.Value(ctx))
 	}
 	extCtx := e.i.EvalContext(ctx)
+	if len(e.resultMarks) != 0 {
+		// The result is going to carry these marks whatever it is, because
+		// the iterators derive from a marked for_each value. Marking the
+		// iterator objects too changes no result, and keeps their content
+		// out of the diagnostics of errors raised by this expression.
+		for name, obj := range extCtx.Variables {
+			extCtx.Variables[name] = obj.WithMarks(e.resultMarks)
+		}
+	}
 	return e.prepareValue(e.Expression.Value(extCtx))
 }
 
